@@ -289,6 +289,21 @@ def c10_prefix_alias(r):
         shutil.rmtree(d, ignore_errors=True)
 
 
+def c02_jsondisk_queue_keys(r):
+    import diskcache
+    d = tempfile.mkdtemp()
+    try:
+        c = diskcache.Cache(d, disk=diskcache.JSONDisk)
+        k = c.push('x')
+        try:
+            keys = list(c)
+            return {'reproduced': keys != [k], 'observed': repr(keys)}
+        except Exception as e:
+            return {'reproduced': True, 'observed': 'iteration raises %r' % (e,)}
+    finally:
+        shutil.rmtree(d, ignore_errors=True)
+
+
 def main():
     r = json.load(sys.stdin)
     try:
